@@ -880,9 +880,10 @@ func runDispatch(run *evid.Run, acc *enum.Acc) {
 
 func TestC07(t *testing.T) {
 	run := evid.Start("C07", "exploration")
-	acc := enum.NewAcc(run, "part 1 (read-header): byte streams = header written by the real opener code for protocol ids at every length boundary (1,2,3,125..128,16381..16384,99994..99997, multi-byte UTF-8) x payload {none,1B,5B}, every proper prefix of honest headers, all strings <=3 B and all 4-byte prefixes over {00,01,03,0a,7f,80,ff} with short/exact/long tails, boundary length prefixes, invalid ids, unknown fields; each stream x read chunkings (all compositions for streams <=14 B; else all-in-one, 1-byte reads, header|payload, single split points, pairs of early split points; plus 'last bytes arrive together with EOF'); part 2 (dispatch): the same families through the real Controller.HandleIncomingStream on a real bus x 4 (local,remote) link identities. A case is non-trivial unless it is an honest header delivered in a single read; distinct by (group, stream, chunking, link identities)")
+	acc := enum.NewAcc(run, "part 1 (read-header): byte streams = header written by the real opener code for protocol ids at every length boundary (1,2,3,125..128,16381..16384,99994..99997, multi-byte UTF-8) x payload {none,1B,5B}, every proper prefix of honest headers, all strings <=3 B and all 4-byte prefixes over {00,01,03,0a,7f,80,ff} with short/exact/long tails, boundary length prefixes, invalid ids, unknown fields; each stream x read chunkings (all compositions for streams <=14 B; else all-in-one, 1-byte reads, header|payload, single split points, pairs of early split points; plus 'last bytes arrive together with EOF'); part 2 (dispatch): the same families through the real Controller.HandleIncomingStream on a real bus x 4 (local,remote) link identities; part 3 (two streams on one controller): every ordered pair of stream kinds {2 protocol ids} x {2 local peers} x {2 remote peers}, the second dispatched while the first handler is running or 0 / 0.5 / 1.5 / 5 s (virtual) after it returned - each must reach a handler looked up with exactly its own parameters. A case is non-trivial unless it is an honest header delivered in a single read; distinct by (group, stream, chunking, link identities)")
 	runE1(run, acc)
 	runDispatch(run, acc)
+	runPairs(t, run, acc)
 	acc.Finish()
 	run.Assumptions = append(run.Assumptions,
 		"the reference decoder (varint length + protobuf field 1) is trusted; headers with non-canonical varints, group wire types or field numbers > 2^29-1 are judged only for internal consistency",
